@@ -171,9 +171,10 @@ def main(argv=None):
     for sig, k in sorted(known_hits.items()):
         print(f"KNOWN-FINDING: property={prop} {k.get('what', sig)}")
     if violations:
-        os.makedirs(os.path.join(VERIF, "replays"), exist_ok=True)
+        rdir = os.path.join(os.environ["GBVERIF_EVIDENCE_DIR"], "replays") if os.environ.get("GBVERIF_EVIDENCE_DIR") else os.path.join(VERIF, "replays")
+        os.makedirs(rdir, exist_ok=True)
         for i, (r, v) in enumerate(violations):
-            path = os.path.join(VERIF, "replays", f"{prop}_{i + 1:03d}.json")
+            path = os.path.join(rdir, f"{prop}_{i + 1:03d}.json")
             with open(path, "w") as f:
                 json.dump({"property": prop, "case": v.get("case"), "inputs": v.get("inputs"), "signature": v["signature"],
                            "kind": v.get("kind"), "labels": v.get("labels"), "detail": v.get("detail"), "query": r["name"]},
@@ -259,8 +260,9 @@ def write_evidence(prop, tier, seed, mod, results, tv, wall, n_viol, known_hits)
         },
         "assumptions": meta.get("assumptions", []),
     }
-    os.makedirs(os.path.join(VERIF, "evidence"), exist_ok=True)
-    with open(os.path.join(VERIF, "evidence", f"{prop}.json"), "w") as f:
+    evdir = os.environ.get("GBVERIF_EVIDENCE_DIR") or os.path.join(VERIF, "evidence")
+    os.makedirs(evdir, exist_ok=True)
+    with open(os.path.join(evdir, f"{prop}.json"), "w") as f:
         json.dump(jsonable(ev), f, indent=1)
 
 
